@@ -873,6 +873,28 @@ def mixed_allocator_check(ctx, tools, rng, stats):
                       {"part": "mixed", "case": text}, key={"kind": "user_malloc_override", "defect": "mixed_plain_malloc_free"})
 
 
+def expand_preserves(ctx, rng, stats):
+    """p?gstrf_MemXpand called directly (no driver reaches it on the current tree): growing lusup / ucol / usub / lsub keeps their
+    contents, keeps them inside work[] and disjoint, in both workspace modes and every precision (harness/memxpand_harness.c)"""
+    lib, fl = ctx.build_lib("hooks")
+    nrun = 0
+    for pi, pch in enumerate("sdcz"):
+        exe = ctx.cc_harness("memxpand_" + pch, ["memxpand_harness.c", "sp_ienv_verif.c"], lib, fl + ["-DVPREC=%d" % pi])
+        combos = [(20, 60, 0, 0), (20, 60, 200000, 0), (33, 140, 400000, 4), (8, 20, 60000, 0)]
+        combos += [(rng.randint(5, 60), rng.randint(10, 300), rng.choice([0, 300000, 900000]), rng.choice([0, 4, 8])) for _ in range(2 if ctx.quick() else 20)]
+        for (n, annz, lw, ba) in combos:
+            rc, out, err = vf.sh2([exe, str(n), str(annz), str(lw), str(ba)], timeout=60)
+            nrun += 1
+            ctx.count(("memxpand", pch, n, annz, lw, ba), kind="memxpand-%s" % ("user" if lw else "system"))
+            bad = [l for l in out.split("\n") if l.startswith("FAIL")]
+            if rc != 0 or bad or not (out.strip().endswith("OK") or out.strip().endswith("SKIP")):
+                what = bad[0][5:] if bad else "harness ended with rc %s: %s" % (rc, (err or out)[-160:])
+                ctx.violation("p%sgstrf_MemXpand (n=%d, annz=%d, lwork=%d, base+%d): %s" % (pch, n, annz, lw, ba, what),
+                              {"part": "memxpand", "prec": pch, "args": [n, annz, lw, ba]}, key={"kind": "expand", "what": what[:32]})
+    stats["memxpand_runs"] = nrun
+    ctx.corr("memxpand_contents_preserved", nrun)
+
+
 # ----------------------------------------------------------------------------- corpus
 def load_corpus():
     res = []
@@ -988,6 +1010,7 @@ def run(ctx):
         tools.exe("drv", 1, "faultasan")
         fault_enumeration(ctx, tools, __import__("random").Random(ctx.seed * 11), 1, stats, flavor="faultasan")
     mixed_allocator_check(ctx, tools, rng, stats)
+    expand_preserves(ctx, rng, stats)
     ctx.corr("fault_enumeration_runs", stats["fault_runs"])
     ctx.corr("fault_enumeration_crash_hang_falsesuccess", stats["fault_bad"])
     ctx.cov["fault_enumeration (supporting evidence, not a proof)"] = stats["fault_hist"]
